@@ -694,7 +694,7 @@ def gen_prop_str(rng, key):
         s = "".join(rng.choice(PROP_CH) for _ in range(rng.choice([1, 2, 3, 5, 8])))
     if key:
         s = s.replace(".", "") or "k"
-        if re.fullmatch(r"[0-9]+", s):
+        if re.fullmatch(r"[+-]?[0-9]+", s):
             s = "n" + s
     return s
 
@@ -744,7 +744,7 @@ def sec_props(cx):
     docs = []
     for k in PROP_FIXED:
         k2 = k.replace(".", "") or "k"
-        if not re.fullmatch(r"[0-9]+", k2):
+        if not re.fullmatch(r"[+-]?[0-9]+", k2):
             docs.append(({k2: "v", "z": k}, " = ", False))
     for _ in range(cx.n(350, 6000)):
         d = {}
@@ -753,7 +753,7 @@ def sec_props(cx):
         docs.append((d, rng.choice([" = ", " = ", "=", ":", " : ", " ="]), False))
     for _ in range(cx.n(250, 4000)):
         t = gen_prop_tree(rng)
-        if isinstance(t, (dict, list)):
+        if isinstance(t, dict):      # a top-level sequence has no properties form that reads back as a sequence
             docs.append((t, " = ", rng.random() < 0.25))
     resp = vlib.yqh_parallel([{"op": "c14_enc", "fmt": "props", "props_sep": sep, "props_brackets": br, "node": to_node(d)} for d, sep, br in docs])
     cases, inputs, texts = [], [], []
@@ -825,7 +825,7 @@ def sec_props(cx):
             jr = java_props_read(t.decode("utf-8"))
         except Exception:
             jr = None
-        simple = jr is not None and all(k != "" and "." not in k and not re.fullmatch(r"[0-9]+", k) for k, _ in jr) and "${" not in t.decode("utf-8", "replace")
+        simple = jr is not None and all(k != "" and "." not in k and not re.fullmatch(r"[+-]?[0-9]+", k) for k, _ in jr) and "${" not in t.decode("utf-8", "replace")
         if simple and b"\0" not in t and b"\1" not in t and b"\\u" not in t.replace(b"\\\\", b""):
             # flat result: compare the ordered key/value list with the model's lexer + ordered-map semantics
             if ok(r) and isinstance(got, dict) and all(isinstance(v, str) for v in got.values()):
@@ -855,6 +855,173 @@ def sec_props(cx):
             cx.viol("propsdec", dict(rp, want=exp, got=got, response=r), "yq's properties decoder does not build the tree that the text (written java-style here) denotes")
     cx.correspond("propsdec", PROPS_IMPORTS, "props_decode_obs", cases, inputs, "Model/Props.v props_parse vs decoder_properties.go + magiconair lexer")
     cx.dist["props"] = {"documents": len(docs), "decode_texts": len(dtexts)}
+
+
+# --------------------------------------------------------------------------
+# XML (library contract: encoding/xml tokenizer / escaper; yq's tree mapping is tested both ways)
+# --------------------------------------------------------------------------
+import xml.etree.ElementTree as ET
+
+XML_TXT = list("abz09 <>&\"'=/;:!?-.,") + ["é", "中", "\U0001F600", "\n", "\t", "]]>", "&amp;", "<!--", " "]
+XML_NAMES = ["a", "b", "c", "item", "x1", "a-b", "a.b", "a_b", "Élan", "n0", "data", "row"]
+
+
+def gen_xml_text(rng):
+    s = "".join(rng.choice(XML_TXT) for _ in range(rng.choice([1, 2, 3, 5, 9])))
+    s = s.strip(" \n\t ")
+    return s if s else "t"
+
+
+def gen_elem(rng, depth=0, name=None):
+    """(tag, [(attr, value)], text or None, [children]); same-named children adjacent; no mixed content"""
+    tag = name or rng.choice(XML_NAMES)
+    attrs = []
+    for a in rng.sample(XML_NAMES, rng.choice([0, 0, 1, 2])):
+        attrs.append((a, "".join(rng.choice(XML_TXT) for _ in range(rng.choice([0, 1, 3, 6])))))
+    r = rng.random()
+    if depth >= 3 or r < 0.4:
+        return (tag, attrs, gen_xml_text(rng) if rng.random() < 0.8 else None, [])
+    kids = []
+    for nm in rng.sample(XML_NAMES, rng.choice([1, 2, 3])):
+        for _ in range(rng.choice([1, 1, 2, 3])):
+            kids.append(gen_elem(rng, depth + 1, nm))
+    return (tag, attrs, None, kids)
+
+
+def xml_value_node(e, ap, cn):
+    """the yq document for an element, as the property describes the mapping"""
+    tag, attrs, text, kids = e
+    if not attrs and not kids:
+        return S(text) if text is not None else S("", "!!null")
+    pairs = [(ap + a, S(v)) for a, v in attrs]
+    if text is not None:
+        pairs.append((cn, S(text)))
+    groups = {}
+    for k in kids:
+        groups.setdefault(k[0], []).append(k)
+    for nm, g in groups.items():
+        pairs.append((nm, xml_value_node(g[0], ap, cn) if len(g) == 1 else Q([xml_value_node(x, ap, cn) for x in g])))
+    return M(pairs)
+
+
+def xml_value_py(e, ap, cn):
+    tag, attrs, text, kids = e
+    if not attrs and not kids:
+        return text
+    d = {ap + a: v for a, v in attrs}
+    if text is not None:
+        d[cn] = text
+    groups = {}
+    for k in kids:
+        groups.setdefault(k[0], []).append(k)
+    for nm, g in groups.items():
+        d[nm] = xml_value_py(g[0], ap, cn) if len(g) == 1 else [xml_value_py(x, ap, cn) for x in g]
+    return d
+
+
+def et_to_elem(x):
+    kids = [et_to_elem(c) for c in x]
+    text = x.text if not kids else None
+    if text is not None and text == "":
+        text = None
+    return (x.tag, sorted(x.attrib.items()), text, kids)
+
+
+def elem_norm(e):
+    return (e[0], sorted(e[1]), e[2], [elem_norm(k) for k in e[3]])
+
+
+def xml_esc(s, attr, rng):
+    out = []
+    for c in s:
+        if c == "&":
+            out.append("&amp;")
+        elif c == "<":
+            out.append("&lt;")
+        elif c == ">":
+            out.append(rng.choice(["&gt;", ">"]) if not attr else "&gt;")
+        elif c == '"' and attr:
+            out.append("&quot;")
+        elif c in "\n\t" and attr:
+            out.append("&#%d;" % ord(c))
+        elif ord(c) > 127 and rng.random() < 0.3:
+            out.append(rng.choice(["&#%d;", "&#x%X;"]) % ord(c))
+        else:
+            out.append(c)
+    return "".join(out).replace("]]>", "]]&gt;")
+
+
+def xml_write(e, rng, indent="", pretty=True):
+    """ground-truth XML 1.0 text for an element tree (independent of yq / Go)"""
+    tag, attrs, text, kids = e
+    a = "".join(' %s="%s"' % (k, xml_esc(v, True, rng)) for k, v in attrs)
+    nl = "\n" if pretty else ""
+    if not kids and text is None:
+        return indent + (("<%s%s/>" % (tag, a)) if rng.random() < 0.5 else "<%s%s></%s>" % (tag, a, tag)) + nl
+    if not kids:
+        if "]]>" not in text and rng.random() < 0.2:
+            body = "<![CDATA[" + text + "]]>"
+        else:
+            body = xml_esc(text, False, rng)
+        return indent + "<%s%s>%s</%s>" % (tag, a, body, tag) + nl
+    inner = "".join(xml_write(k, rng, indent + "  " if pretty else "", pretty) for k in kids)
+    return indent + "<%s%s>%s%s%s</%s>" % (tag, a, nl, inner, indent, tag) + nl
+
+
+@section
+def sec_xml(cx):
+    chk, rng = cx.chk, cx.rng
+    elems = [gen_elem(rng) for _ in range(cx.n(300, 6000))]
+    prefs = [rng.choice([("+@", "+content"), ("+@", "+content"), ("_", "#text"), ("@", "+content")]) for _ in elems]
+    # ---------- encode: yq writes, xml.etree reads ----------
+    reqs = [{"op": "c14_enc", "fmt": "xml", "xml_attr": ap, "xml_content": cn, "indent": rng.choice([0, 2, 2, 4]),
+             "node": M([(e[0], xml_value_node(e, ap, cn))])} for e, (ap, cn) in zip(elems, prefs)]
+    resp = vlib.yqh_parallel(reqs)
+    for e, (ap, cn), rq, r in zip(elems, prefs, reqs, resp):
+        rp = {"elem": e, "attr_prefix": ap, "content_name": cn, "node": rq["node"], "indent": rq["indent"]}
+        chk.count(("xmlw", json.dumps(e), ap), nontrivial=bool(e[1] or e[3]),
+                  sample={"elem": e, "xml": vlib.b64d(r["out_b64"]).decode("utf-8", "replace")} if ok(r) and e[3] and len(json.dumps(e)) < 120 else None)
+        if not ok(r):
+            cx.viol("xmlenc", dict(rp, response=r), "xml encoder failed on an element tree")
+            continue
+        out = vlib.b64d(r["out_b64"])
+        try:
+            back = et_to_elem(ET.fromstring(out.decode("utf-8")))
+        except Exception as ex:
+            back = "xml.etree failed: %s" % ex
+        if back != elem_norm(e):
+            cx.viol("xmlenc", dict(rp, impl_out=out.decode("utf-8", "replace"), etree_reads=back), "xml.etree does not map yq's XML output back to the element tree")
+    # ---------- decode: python writes, yq reads ----------
+    texts = [(xml_write(e, rng, "", rng.random() < 0.7), e, pf) for e, pf in zip(elems, prefs)]
+    decl = '<?xml version="1.0" encoding="UTF-8"?>\n'
+    texts += [(decl + "<!-- c -->\n" + xml_write(e, rng), e, pf) for e, pf in list(zip(elems, prefs))[:: 10]]
+    resp = vlib.yqh_parallel([{"op": "c14_dec", "fmt": "xml", "xml_attr": ap, "xml_content": cn, "text_b64": vlib.b64e(t)} for t, e, (ap, cn) in texts])
+    for (t, e, (ap, cn)), r in zip(texts, resp):
+        rp = {"text": t, "text_b64": vlib.b64e(t), "elem": e, "attr_prefix": ap, "content_name": cn}
+        try:
+            sane = et_to_elem(ET.fromstring(t)) == elem_norm(e)
+        except Exception:
+            sane = False
+        if not sane:
+            cx.broken.append("generator: xml.etree does not read back the generated XML %r" % t[:80])
+            continue
+        chk.count(("xmlr", t, ap), nontrivial=bool(e[1] or e[3]))
+        want = {e[0]: xml_value_py(e, ap, cn)}
+        if t.startswith("<?xml"):
+            want = dict([("+p_xml", 'version="1.0" encoding="UTF-8"')] + list(want.items()))
+        got = from_node(r["node"], typed=True) if ok(r) else None
+        if got != want:
+            cx.viol("xmldec", dict(rp, want=want, got=got, response=r if not ok(r) else None), "yq's xml decoder does not build the document the XML text denotes")
+    # ---------- both ways through the in-expression operators ----------
+    sample = list(zip(elems, prefs))[:: 6]
+    resp = vlib.yqh_parallel([{"op": "c14_op", "expr": "to_xml | from_xml", "xml_attr": ap, "xml_content": cn, "node": M([(e[0], xml_value_node(e, ap, cn))])} for e, (ap, cn) in sample])
+    for (e, (ap, cn)), r in zip(sample, resp):
+        want = {e[0]: xml_value_py(e, ap, cn)}
+        got = from_node(r["nodes"][0]) if ok(r) and len(r.get("nodes", [])) == 1 else None
+        chk.count(("xmlop", json.dumps(e), ap), nontrivial=True)
+        if got != want:
+            cx.viol("xmlop", {"elem": e, "attr_prefix": ap, "content_name": cn, "want": want, "got": got}, "to_xml | from_xml is not the identity on an element-tree document")
+    cx.dist["xml"] = {"element_trees": len(elems), "decode_texts": len(texts)}
 
 
 # --------------------------------------------------------------------------
